@@ -93,7 +93,19 @@ def plan(tier, seed):
         per = n[kind] // k[kind]
         for i in range(k[kind]):
             shards.append({"kind": kind, "cases": {"start": i * per, "stop": (i + 1) * per}})
+    # exhaustive sub-space: every argument tuple up to length 2 (thorough: 3) over a fixed
+    # alphabet of look-alike values, all held in the cache at the same time
+    if tier == "quick":
+        shards.append({"kind": "exh", "depth": 2, "cases": [0]})
+    else:
+        na = len(ECHO_VALUES) + N_EXH_ARRAYS
+        for first in range(na):
+            shards.append({"kind": "exh", "depth": 3, "cases": [first]})
     return shards
+
+
+def exhaustive(tier):
+    return False      # only the "exh" sub-space is enumerated completely
 
 
 # =========================================================================== state
@@ -607,6 +619,63 @@ ECHO_VALUES = [1, "1", 1.0, True, None, "None", 12, [1, 2], [12], (1, 2), "12", 
                [[1], 2], 0, False, "", [], [""], np.int64(1), np.float32(1.0), "a", ["a"]]
 
 
+N_EXH_ARRAYS = 8
+
+
+def _exh_alphabet():
+    one = np.array([1.0])
+    return list(ECHO_VALUES) + [
+        one, one.view(np.int64), one.reshape(1, 1), one.view(np.float32),
+        np.zeros(0), np.zeros(0, dtype=np.int32), np.zeros((0, 3)), np.array([1.0, 1.0])]
+
+
+def run_exh(ctx, idx, depth):
+    """All calls echo(*t) for tuples t over the alphabet: length <= 2 (quick; one case) or
+    length 3 with first element `idx` plus all shorter ones (thorough).  The capacity is
+    raised so that every earlier call is still cached: every pair of calls is confronted."""
+    import itertools
+    from dclab import cached
+    from dclab.cached import Cache
+    alpha = _exh_alphabet()
+    assert len(alpha) == len(ECHO_VALUES) + N_EXH_ARRAYS
+    _new_case()
+    old_size = cached.MAX_SIZE
+    cached.MAX_SIZE = 10 ** 7
+    S.model.max_size = 10 ** 7
+    try:
+        Cache.clear_cache()
+        fns = _echo_functions()
+        ids = range(len(alpha))
+        tuples = [()] + [(i,) for i in ids] + list(itertools.product(ids, ids))
+        if depth == 3:
+            tuples += [(idx, j, k) for j in ids for k in ids]
+        n = 0
+        for t in tuples:
+            for fname in ("echo_one", "echo_two"):
+                S.spec = {"exh": [repr(alpha[i])[:40] for i in t], "fn": fname}
+                _call(fns[fname], *[alpha[i] for i in t])
+                n += 1
+        # keyword forms: one positional + one keyword, keyword only
+        for i in ids:
+            for j in ids:
+                S.spec = {"exh": [repr(alpha[i])[:40]], "kw_a": repr(alpha[j])[:40]}
+                _call(fns["echo_one"], alpha[i], a=alpha[j])
+                _call(fns["echo_one"], a=alpha[i], b=alpha[j])
+                _call(fns["echo_one"], ab=alpha[i])
+                n += 3
+        S.spec = None
+        sweep_cache(ctx)
+        ctx.count("exh_calls", n)
+        ctx.count(f"exh_depth[{depth}]")
+        ctx.mark_nontrivial(["exh", depth, idx])
+        ctx.sample({"kind": "exh", "depth": depth, "first": idx, "calls": n,
+                    "alphabet": [repr(a)[:30] for a in alpha], "observed": S.case})
+    finally:
+        cached.MAX_SIZE = old_size
+        S.model.max_size = 100
+        Cache.clear_cache()
+
+
 def _echo_calls(rng, arrays, n):
     names = sorted(arrays)
     calls = []
@@ -909,6 +978,8 @@ def run(spec, ctx):
                 run_hash(ctx, idx)
             elif kind == "contour":
                 run_contour(ctx, idx)
+            elif kind == "exh":
+                run_exh(ctx, idx, spec.get("depth", 2))
             else:
                 from . import c17_feat
                 c17_feat.run_feat(ctx, idx, S)
